@@ -763,6 +763,21 @@ fn cmd_probe() {
     }
 }
 
+/// every instruction of hand-assembled program 0, recorded: the real-VM witness that `Plain` is not an invariant of
+/// `run_one` over arbitrary bytecode (`MOV Ptr(closure) GlobalEnvSlot` leaves an inline `Closure` in a global slot)
+fn cmd_witness() {
+    let stdout = std::io::stdout();
+    let mut out = std::io::BufWriter::new(stdout.lock());
+    let prog = Program {
+        label: "witness0".to_string(),
+        forms: split_forms("(define (syn a b) (lambda () (list a b)) (list a b)) (syn 1 2)"),
+        gc_every: None,
+        patch: Some(0),
+        fill: None,
+    };
+    run_program(&prog, &mut |_, _| true, &mut |line| writeln!(out, "{}", line).unwrap());
+}
+
 fn main() {
     silence_panics();
     let args: Vec<String> = std::env::args().skip(1).collect();
@@ -770,6 +785,7 @@ fn main() {
     match args.first().map(|s| s.as_str()) {
         Some("run") if args.len() >= 3 => cmd_run(&args[1..], seed),
         Some("probe") => cmd_probe(),
+        Some("witness") => cmd_witness(),
         _ => {
             eprintln!("usage: simstep run <programs> <lines-per-program>");
             std::process::exit(2);
